@@ -150,6 +150,16 @@ Record dest := { d_is4 : bool; d_ip : str; d_port : N }.
 Definition dest_wf (d : dest) : bool :=
   no_brackets (d_ip d) && (negb (d_is4 d) || negb (contains c_colon (d_ip d))).
 
+(* ---- DNS names: equal up to ASCII case and one trailing dot --------------------------------------
+   A question name as it arrives on the wire ("wWw.ExAmPlE.") and a sniffed name ("www.example") denote
+   the same host.  The key under which "dae resolved (name, type)" is remembered and looked up is the
+   name in that normal form plus the record type. *)
+Definition name_norm (n : str) : str := ascii_lower (trim_suffix_dot n).
+Definition same_name (a b : str) : bool := str_eqb (name_norm a) (name_norm b).
+Definition spec_key (n : str) (qtype : N) : str := name_norm n ++ [c_dot] ++ itoa qtype.
+Definition qtype_a : N := 1.      (* RFC 1035 *)
+Definition qtype_aaaa : N := 28.  (* RFC 3596 *)
+
 (* ---- what is known about a name, in terms of what happened before ----------------------------
    EvResolved key e   : dae resolved the (name, family) behind `key`; the answer's original TTL ends at e
    EvVerified n t b   : dae's own verification of name n finished at time t; b = the name exists *)
